@@ -14,5 +14,10 @@ ROWS = {
   "exhaustive enumeration of 8/16-bit value types + property-based testing (rapid) of round trips and decoder totality + native fuzzing (thorough)",
   "All values of the 8/16-bit types (incl. all 2^16 ExposureBias encodings) go through MessagePack Marshal/Unmarshal and Encode/Decode (identity, no leftover, Msgsize bound) and text/JSON where offered (exact for documented members, Marshal∘Unmarshal∘Marshal idempotent for every value, receivers pre-set to another value); floats, Dimensions, hashes, FocusDistance and UUIDs (all text forms x case) are generated; every decoder with an error result is run on arbitrary and near-valid input under recover.",
   "Trusted: github.com/tinylib/msgp reader/writer, encoding/json. Members are the documented ones listed in the evidence assumptions. One recorded finding (ExposureMode text of undocumented values)."),
+
+ "C18": ("exploration",
+  "exhaustive unit impulses + property-based testing (rapid): differential asm vs portable kernels, reference float64 DCT-II by definition, guard words",
+  "All unit impulses (both signs, every slice offset 0..7) of the 64/256-point kernels and of the 64x64 2-D kernel are enumerated; rapid draws vectors over 12 decades, mixed scales, sparse, pixel-range, extreme, denormal and structured inputs; oracles: assembly and portable results bit-identical, NaN-payload guard words around the argument intact, |kernel - DCT-II| <= 1e-5 ||x||_1 against a direct O(N^2) float64 evaluation (float64 kernels 1e-12), hashes identical under portable and platform kernel selection.",
+  "Trusted: math.Cos and float64 summation in the reference; hooks in imagehash/transforms32 (build tag verif) that expose the unexported kernels. Three recorded findings (256-point accuracy on sparse inputs; sign of zero in the two 1-D assembly kernels). Needs an AVX2 CPU for the assembly halves (evidence says whether it had one)."),
 }
 NOT_APPLICABLE = {}
